@@ -4,6 +4,13 @@ import WpModel.Drive.Loop
 import WpModel.Model.BreakTypes
 import WpModel.Gen.BreakTable
 import WpModel.Model.Break
+import WpModel.Model.Paginate
+import WpModel.Lemmas.ParaLines
 import WpModel.Drive.Break
+import WpModel.Drive.Paginate
+import WpModel.Drive.Total
+import WpModel.Props.C01
+import WpModel.Props.C02
+import WpModel.Props.C03
 import WpModel.Props.C04
 import WpModel.Witness.C04
